@@ -128,6 +128,7 @@ class _Run:
         self.tier = tier
         self.binary = None
         self.lock = threading.Lock()
+        self.dumps_active = 0
         self.kinds_seen = {}        # finding kind -> times reported (first history per channel)
         self.kind_counts = {}       # finding kind -> observations counted by the replay judge
         self.metrics = {}
@@ -140,6 +141,11 @@ class _Run:
     def count(self, kind, n):
         with self.lock:
             self.kind_counts[kind] = self.kind_counts.get(kind, 0) + n
+
+    def workers(self):
+        """TLC workers for the next model-checking run: the cores the single-worker dump runs do not occupy"""
+        with self.lock:
+            return max(1, vlib.NCPU - min(self.dumps_active, vlib.NCPU // 2) - (1 if self.binary is None else 0))
 
     def gate(self, name, n):
         with self.lock:
@@ -233,7 +239,7 @@ def _strip(ev):
 
 # --------------------------------------------------------------------------- the phases
 def _mc_contract(run, name, **c):
-    res = run_tlc("ds/DynamicGraph", cfg=_contract_cfg(name, False, **c), workers=run.w_mc, timeout=2400)
+    res = run_tlc("ds/DynamicGraph", cfg=_contract_cfg(name, False, **c), workers=run.workers(), timeout=2400)
     with run.lock:
         run.ck.tlc(res, name)
     if res.violated:
@@ -254,7 +260,7 @@ def _mc_impl(run, module, cfg, name, mode, confirm_kind=None):
     if os.path.exists(cex):
         os.remove(cex)
     extra = [] if mode in ("ok", "probe") else ["-dumpTrace", "json", cex]
-    res = run_tlc(module, cfg=cfg, workers=run.w_mc, timeout=2400, extra=extra)
+    res = run_tlc(module, cfg=cfg, workers=run.workers(), timeout=2400, extra=extra)
     with run.lock:
         run.ck.tlc(res, name)
     if mode == "ok":
@@ -360,7 +366,7 @@ def _replay_collect(run, kind, name, results):
             run.ck.violation("%s:crash" % kind, "harness crashed / sanitizer report while replaying %s (rc=%s): %s"
                              % (name, rc, (err or out)[-700:]), rp)
             continue
-        if rc == 71:
+        if rc == 71 and not summ:
             continue        # hang, reported above; the shard's remaining scenarios are lost
         if not summ:
             raise FrameworkError("replay %s shard %d produced no summary (rc=%s): %s" % (name, shard, rc, (out + err)[-1500:]))
@@ -415,7 +421,6 @@ def run(tier):
     run.assumption_demos = []
     run.to_confirm = []
     ncpu = vlib.NCPU
-    run.w_mc = max(1, ncpu // 2)
     quick = tier == "quick"
 
     # harness build in the background while TLC works
@@ -465,7 +470,7 @@ def run(tier):
     if not quick:
         lpa4 = dict(kind="lpa", n=4, w=(1, 2), maxe=12, src=0, tgt=3, hsel=0, tiefree=False)
         impl += [
-            ("lpa-current-4-e8", "ds/LPAstar", _lpa_cfg("lpa-current-4-e8", False, False, **dict(lpa4, maxe=8)), "ok", None),
+            ("lpa-current-4-e6", "ds/LPAstar", _lpa_cfg("lpa-current-4-e6", False, False, **dict(lpa4, maxe=6)), "ok", None),
             ("lpa-current-4-len6", "ds/LPAstar", _lpa_cfg("lpa-current-4-len6", False, False, maxlen=6, **dict(lpa4, w=(1, 2, 3), hsel=1)), "ok", None),
             ("sssp-tiefree-3-ordered", "ds/DynamicSSSP", _sssp_cfg("sssp-tiefree-3-ordered", view="SViewOrdered", kind="sssp", n=3, w=(1, 2, 4), maxe=4), "ok", None),
             ("sssp-tiefree-4", "ds/DynamicSSSP", _sssp_cfg("sssp-tiefree-4", kind="sssp", n=4, w=(1, 2, 4), maxe=3), "ok", None),
@@ -481,16 +486,16 @@ def run(tier):
                  ("dump-adj-3", dict(kind="adj", n=3, w=(0, 1, 2), maxe=6, tiefree=False), dict(edges=True, pairs=None, walks=1500, walklen=30, budget=20000))]
         rec = [("sssp", 12, 250, 12), ("lpa", 12, 250, 12), ("lpad", 8, 200, 10), ("adj", 8, 200, 10)]
     else:
-        dumps = [("dump-sssp-4", dict(kind="sssp", n=4, w=(1, 2, 4), maxe=4), dict(edges=True, pairs=None, walks=20000, walklen=60, budget=0)),
-                 ("dump-sssp-3", dict(kind="sssp", n=3, w=(1, 2, 4, 8), maxe=6), dict(edges=True, pairs="pairs", walks=10000, walklen=40, budget=1000000)),
+        dumps = [("dump-sssp-4", dict(kind="sssp", n=4, w=(1, 2, 4), maxe=3), dict(edges=True, pairs="pairs2", walks=20000, walklen=60, budget=0)),
+                 ("dump-sssp-3", dict(kind="sssp", n=3, w=(1, 2, 4, 8), maxe=6), dict(edges=True, pairs=None, walks=10000, walklen=40, budget=300000)),
                  ("dump-lpa-4h", dict(kind="lpa", n=4, w=(1, 2, 3), maxe=12, src=0, tgt=3, hsel=1, tiefree=False), dict(edges=True, pairs="pairs", walks=30000, walklen=60, budget=300000)),
                  ("dump-lpa-4", dict(kind="lpa", n=4, w=(1, 2), maxe=12, src=0, tgt=3, hsel=0, tiefree=False), dict(edges=True, pairs="pairs", walks=30000, walklen=60, budget=300000)),
                  ("dump-lpa-4far", dict(kind="lpa", n=4, w=(1, 2), maxe=12, src=0, tgt=1, hsel=2, tiefree=False), dict(edges=True, pairs="pairs", walks=30000, walklen=60, budget=0)),
-                 ("dump-lpa-3", dict(kind="lpa", n=3, w=(1, 2, 3), maxe=6, src=0, tgt=2, hsel=0, tiefree=False), dict(edges=True, pairs="pairs", walks=10000, walklen=40, budget=2000000)),
-                 ("dump-lpad-3", dict(kind="lpad", n=3, w=(1, 2), maxe=6, src=0, tgt=2, hsel=0, tiefree=False), dict(edges=True, pairs="pairs", walks=10000, walklen=40, budget=1000000)),
-                 ("dump-lpad-4", dict(kind="lpad", n=4, w=(1, 2), maxe=5, src=0, tgt=3, hsel=0, tiefree=False), dict(edges=True, pairs=None, walks=30000, walklen=60, budget=0)),
-                 ("dump-adj-4", dict(kind="adj", n=4, w=(0, 1, 2), maxe=8, tiefree=False), dict(edges=True, pairs=None, walks=20000, walklen=60, budget=0)),
-                 ("dump-adj-3", dict(kind="adj", n=3, w=(0, 1, 2), maxe=6, tiefree=False), dict(edges=True, pairs="pairs", walks=5000, walklen=40, budget=500000))]
+                 ("dump-lpa-3", dict(kind="lpa", n=3, w=(1, 2, 3), maxe=6, src=0, tgt=2, hsel=0, tiefree=False), dict(edges=True, pairs="pairs", walks=10000, walklen=40, budget=500000)),
+                 ("dump-lpad-3", dict(kind="lpad", n=3, w=(1, 2), maxe=6, src=0, tgt=2, hsel=0, tiefree=False), dict(edges=True, pairs="pairs", walks=10000, walklen=40, budget=300000)),
+                 ("dump-lpad-4", dict(kind="lpad", n=4, w=(1, 2), maxe=4, src=0, tgt=3, hsel=0, tiefree=False), dict(edges=True, pairs=None, walks=20000, walklen=60, budget=0)),
+                 ("dump-adj-4", dict(kind="adj", n=4, w=(0, 1, 2), maxe=6, tiefree=False), dict(edges=True, pairs=None, walks=10000, walklen=60, budget=0)),
+                 ("dump-adj-3", dict(kind="adj", n=3, w=(0, 1, 2), maxe=6, tiefree=False), dict(edges=True, pairs="pairs2", walks=5000, walklen=40, budget=200000))]
         rec = [("sssp", 60, 300, 12), ("lpa", 60, 300, 12), ("lpad", 40, 300, 12), ("adj", 40, 300, 12),
                ("sssp", 60, 300, 12), ("lpa", 60, 300, 12)]
 
@@ -499,7 +504,13 @@ def run(tier):
 
     def do_dump(item):
         name, c, _ = item
-        dump_out[name] = _dump(run, name, **c)
+        with run.lock:
+            run.dumps_active += 1
+        try:
+            dump_out[name] = _dump(run, name, **c)
+        finally:
+            with run.lock:
+                run.dumps_active -= 1
 
     def do_mc():
         for name, c in contract:
